@@ -14,6 +14,10 @@ use std::rc::Rc;
 use std::sync::atomic::{AtomicUsize, Ordering};
 use std::sync::Mutex;
 
+/// the driver retries an operation that keeps failing this many times (more than any fault budget,
+/// so that a run of transient faults is always retried through)
+const GIVE_UP: usize = 5;
+
 fn family(id: &str) -> &str {
     id.split('(').next().unwrap_or(id)
 }
@@ -177,7 +181,7 @@ fn run_sender_blocking(s: &dyn IoShape, cap: CapSpec, seq: &[Value], kind: Kind,
                         return Next::Stop;
                     }
                     fails.set(fails.get() + 1);
-                    if fails.get() >= 3 {
+                    if fails.get() >= GIVE_UP {
                         Next::Stop
                     } else {
                         Next::Retry
@@ -290,7 +294,7 @@ fn run_receiver_blocking(s: &dyn IoShape, cap: CapSpec, stream: &[u8], faults: &
                 }
                 RecvOut::Read(_) => {
                     errs.set(errs.get() + 1);
-                    errs.get() < 3
+                    errs.get() < GIVE_UP
                 }
                 _ => false,
             }
@@ -437,7 +441,7 @@ fn run_async(s: &dyn IoShape, cap: CapSpec, seq: &[Value], pipe_cap: usize, spur
                         return Next::Stop;
                     }
                     fails.set(fails.get() + 1);
-                    if fails.get() >= 3 {
+                    if fails.get() >= GIVE_UP {
                         Next::Stop
                     } else {
                         Next::Retry
@@ -455,7 +459,7 @@ fn run_async(s: &dyn IoShape, cap: CapSpec, seq: &[Value], pipe_cap: usize, spur
                 }
                 RecvOut::Read(_) => {
                     errs.set(errs.get() + 1);
-                    errs.get() < 3
+                    errs.get() < GIVE_UP
                 }
                 _ => false,
             }
@@ -624,7 +628,7 @@ fn judge_receiver_faulty(cx: &mut Ctx, mode: &str, cap: CapSpec, seq: &[Value], 
         if read_errs != injected.len() {
             cx.violate(format!("{}/receiver/error_not_reported", mode), format!("{} faults injected {:?} but {} read errors reported", injected.len(), injected, read_errs), replay);
         }
-    } else if eof && !persistent && !closed && read_errs < 3 {
+    } else if eof && !persistent && !closed && read_errs < GIVE_UP {
         cx.violate(format!("{}/receiver/eof_not_closed", mode), format!("end of stream injected {:?} but recv never reported Closed: {:?}", injected, outs.last()), replay);
     }
 }
